@@ -57,7 +57,9 @@ fn gen_parts(g: &mut Rng) -> Parts {
     let ws1 = pick(g, &["", " ", "\n\t"]).to_string();
     let ws2 = pick(g, &[" ", "", "  ", "\r\n"]).to_string();
     let value = pick(g, &["0123456789abcdef0123456789abcdef01234567", "", "initial", "a\\\"b", "x\\\\", "\\u00e9", "\u{e9}\u{65e5}", "tail\\\\\\\""]).to_string();
-    let suffix = pick(g, &[",\n  \"prompts\": {}\n}", "}", ",\n  \"prompts\": {\"s1\": {\"messages\": [{\"text\": \"say \\\"base_commit_sha\\\": \\\"x\\\" \u{e9}\"}]}}\n}", ", \"k\": \"\u{1f642}\"}"]).to_string();
+    let suffix = pick(g, &[",\n  \"prompts\": {}\n}", "}", ",\n  \"prompts\": {\"s1\": {\"messages\": [{\"text\": \"say \\\"base_commit_sha\\\": \\\"x\\\" \u{e9}\"}]}}\n}", ", \"k\": \"\u{1f642}\"}",
+        // a prompt record whose tool_use input has a key of the same name (the metadata field comes first: the FIRST occurrence is the field)
+        ",\n  \"prompts\": {\"s1\": {\"messages\": [{\"type\": \"tool_use\", \"name\": \"git\", \"input\": {\"base_commit_sha\": \"deadbeef\", \"n\": 1}}]}}\n}"]).to_string();
     let target = pick(g, &["fedcba9876543210fedcba9876543210fedcba98", "t", "", "\u{e9}"]).to_string();
     (prefix, ws1, ws2, value, suffix, target)
 }
